@@ -144,7 +144,10 @@ class QueueWorld:
         for j in range(p["items"]):
             for _ in range(p.get("gap", 0)):
                 await asyncio.sleep(0)
-            await self.q.put((i, j))
+            item = (i, j)
+            if p.get("falsy"):
+                item = [None, 0, "", (), False][(i + j) % 5]  # sentinels and other falsy items are items too
+            await self.q.put(item)
             self.puts += 1
             self.ev("put", i, j)
             self.balance_event()
@@ -159,6 +162,9 @@ class QueueWorld:
             self.cstate[c] = "waiting"
             base = self.cur_calls.get(me, 0)
             self.ev("c_wait", c)
+            if body.get("nested"):
+                await self._nested(c, me, body)
+                continue
             try:
                 async with self.q as item:
                     entered = True
@@ -204,6 +210,52 @@ class QueueWorld:
                 raise exc
         self.cstate[c] = "gone"
 
+    async def _nested(self, c, me, body):
+        """One task holds two blocks on the same queue at once: `async with q as a, q as b`."""
+        depth = 0
+        base = self.cur_calls.get(me, 0)
+        exc = None
+        self.cstate[c] = "waiting"
+        self.ev("c_wait_nested", c)
+        try:
+            async with self.q as a:
+                depth = 1
+                self.cstate[c] = "inside"
+                self.ev("c_enter", c, a)
+                try:
+                    async with self.q as b:
+                        depth = 2
+                        self.ev("c_enter", c, b)
+                        for _ in range(body.get("y", 0)):
+                            await asyncio.sleep(0)
+                finally:
+                    if depth == 2:
+                        inner = self.cur_calls.get(me, 0) - base
+                        self.exits += 1
+                        self.ev("c_exit", c, "inner")
+                        self.sit["exit.nested_inner"] += 1
+                        if inner != 1:
+                            self.violate("C20.once", f"consumer {c}: inner nested block exited with {inner} task_done() calls")
+                        self.balance_event()
+        except BaseException as e:  # noqa: BLE001
+            exc = e
+        made = self.cur_calls.get(me, 0) - base
+        if depth >= 1:
+            self.exits += 1
+            self.ev("c_exit", c, "outer")
+            self.sit["exit.nested_outer"] += 1
+            if isinstance(exc, ValueError):
+                self.violate("C20.once", f"consumer {c}: ValueError out of a nested block exit: {exc}")
+            if made != depth:
+                self.violate("C20.once", f"consumer {c}: {depth} nested blocks exited with {made} task_done() calls in total")
+            self.balance_event()
+        elif made != 0:
+            self.violate("C20.no_mark_waiting", f"consumer {c} never got an item but made {made} task_done() calls")
+        self.cstate[c] = "between"
+        if isinstance(exc, CancelledError):
+            self.cstate[c] = "gone"
+            raise exc
+
     async def _join(self):
         j = {"zero": self.puts - self.exits == 0, "done": False}
         self.joins.append(j)
@@ -247,7 +299,7 @@ def gen_scenario(rng: random.Random):
     nprod = rng.choice([1, 1, 2, 3])
     ncons = rng.choice([1, 2, 2, 3])
     sc = {"maxsize": rng.choice([0, 0, 1, 2]),
-          "producers": [{"items": rng.randint(0, 4), "gap": rng.randint(0, 3)} for _ in range(nprod)],
+          "producers": [{"items": rng.randint(0, 4), "gap": rng.randint(0, 3), "falsy": rng.random() < 0.3} for _ in range(nprod)],
           "consumers": [], "steps": []}
     for _ in range(ncons):
         bodies = []
@@ -260,6 +312,8 @@ def gen_scenario(rng: random.Random):
                 b["gate"] = True
             elif x < 0.35:
                 b["selfcancel"] = True
+            elif x < 0.45:
+                b = {"y": rng.choice([0, 1, 2]), "nested": True}
             bodies.append(b)
         sc["consumers"].append({"rounds": rng.randint(1, 4), "bodies": bodies})
     for _ in range(rng.randint(2, 12)):
@@ -288,6 +342,8 @@ BASES = [
     {"maxsize": 2, "producers": [{"items": 4, "gap": 1}], "consumers": [{"rounds": 3, "bodies": [{"y": 2}, {"y": 0, "raise": True}]}, {"rounds": 3, "bodies": [{"y": 1}]}], "steps": [["y", 2], ["join"]]},
     {"maxsize": 0, "producers": [{"items": 1, "gap": 4}], "consumers": [{"rounds": 1, "bodies": [{"y": 2}]}, {"rounds": 1, "bodies": [{"y": 1}]}], "steps": [["join"]]},
     {"maxsize": 0, "producers": [{"items": 3, "gap": 2}], "consumers": [{"rounds": 3, "bodies": [{"y": 1, "selfcancel": True}, {"y": 1}]}], "steps": [["y", 4], ["join"], ["put", 1]]},
+    {"maxsize": 0, "producers": [{"items": 5, "gap": 1, "falsy": True}], "consumers": [{"rounds": 3, "bodies": [{"y": 1}]}, {"rounds": 2, "bodies": [{"y": 0}]}], "steps": [["y", 3], ["join"]]},
+    {"maxsize": 0, "producers": [{"items": 4, "gap": 2}], "consumers": [{"rounds": 1, "bodies": [{"y": 1, "nested": True}]}, {"rounds": 2, "bodies": [{"y": 1}]}], "steps": [["join"], ["y", 5], ["join"]]},
 ]
 
 
